@@ -194,7 +194,6 @@ def configs(tier):
         names += ["J/psi->gamma f0(980)"]
     out = [{"name": n, "reaction": n} for n in names]
     if tier == "thorough":
-        out.append({"name": "J/psi->gamma f0,f2|child-helicities-off", "reaction": "J/psi->gamma f0,f2", "naming": {"insert_child_helicities": False}})
         out.append({"name": "J/psi->Sigma~(1750) Sigma+ (Sigma~->K0 p~)|parent-helicities", "reaction": "J/psi->Sigma~(1750) Sigma+ (Sigma~->K0 p~)", "naming": {"insert_parent_helicities": True}})
     out.append({"name": "J/psi->K*+ K- (K*->K+ pi0)|parent-helicities", "reaction": "J/psi->K*+ K- (K*->K+ pi0)", "naming": {"insert_parent_helicities": True}})
     out.append({"name": "J/psi->K*+ K- (K*->K+ pi0)|formulate, set parent-helicities, formulate again", "reaction": "J/psi->K*+ K- (K*->K+ pi0)",
